@@ -8,7 +8,8 @@
      Batch(n, b)    SyncProducer.SendMessages with n messages (b: the one whose partitioning fails, 0 = none)
      SetParts(t, n) TopicConfig.SetPartitions(map[string]int32{t: n}) on the mock, callable any number of times
                     (topics without an override have the default count: 32 unless SetDefaultPartitions)
-     Close          Close()
+     Close          Close()   (CloseOps: "close"), or, async mock only, AsyncClose() followed by draining Successes() /
+                    Errors() until both are closed - the completion signal of that shutdown path ("aclose")
 
    Every action is computed with the step functions of MocksOracle (the same functions the trace
    observer MocksTrace uses on the real code's behaviour); the invariants below restate the
@@ -20,7 +21,7 @@
 EXTENDS MocksOracle, Json
 
 CONSTANTS Modes, PKs, NPA, NPD, RetS, Quirks, Kinds, MaxExp, MaxSend, Interleave,
-          MsgTopics, MsgKeys, MsgParts, BatchSizes, SetTopics, SetCounts, MaxSet, FullScript, MsgBad, BatchBad, EmitCases
+          MsgTopics, MsgKeys, MsgParts, BatchSizes, SetTopics, SetCounts, MaxSet, FullScript, MsgBad, BatchBad, CloseOps, EmitCases
 
 VARIABLES cf, ps, hist
 vars == <<cf, ps, hist>>
@@ -87,10 +88,11 @@ Batch(n, b) ==
                                r.rep, r.parts))
   /\ UNCHANGED cf
 
-Close ==
+Close(how) ==
+  /\ how = "aclose" => cf.mode = "async"
   /\ LET r == PClose(ps) IN
      /\ ps' = r.ps
-     /\ hist' = Append(hist, H("close", "-", NoMsg, 0, -1, 0, "-", NoOuts, r.rep, <<>>))
+     /\ hist' = Append(hist, H(how, "-", NoMsg, 0, -1, 0, "-", NoOuts, r.rep, <<>>))
   /\ UNCHANGED cf
 
 Next ==
@@ -99,7 +101,7 @@ Next ==
      \/ \E m \in MsgSpace : Send(m)
      \/ \E n \in BatchSizes, b \in BatchBad : Batch(n, b)
      \/ \E t \in SetTopics, n \in SetCounts : SetParts(t, n)
-     \/ Close
+     \/ \E how \in CloseOps : Close(how)
 Spec == Init /\ [][Next]_vars
 
 -----------------------------------------------------------------------------
@@ -223,7 +225,7 @@ Conservation ==
 TypeOK ==
   /\ ps.nexp = NTotalExp
   /\ ps.last \in 0..MaxSend
-  /\ ps.closed => hist[Len(hist)].op = "close"
+  /\ ps.closed => hist[Len(hist)].op \in {"close", "aclose"}
 
 -----------------------------------------------------------------------------
 \* role 2: every closed state is one case
